@@ -51,7 +51,9 @@ BookFollows(j, kind, budget) ==
          IF r.ev \in {"Crash", "Stop", "Reset"} THEN FALSE
          ELSE IF r.ev = "KV" /\ r.kind = "meta" /\ r.key = BookKey(kind) THEN TRUE
          ELSE BookFollows(j + 1, kind, budget - 1)
-Ack(kind) == Acked /\ e.acc > 0 /\ BookFollows(l + 1, kind, 60)
+\* (an acknowledged acceptance is AttemptX(n, TRUE): the marks are set; the watermark write is its own step, BookX,
+\* which a crash may cut off - the look-ahead for that write, needed while the attempt was one step, is gone)
+Ack(kind) == Acked /\ e.acc > 0
 
 \* identity of the transactions of block h: "none" for an empty block, otherwise the list itself
 RECURSIVE NextObs(_, _)
@@ -130,9 +132,11 @@ SSubmitNone == l <= N /\ ~drifted /\ Ready /\ e.ev = "DASubmit" /\ Len(e.blobs) 
 SKV ==
     /\ Is("KV") /\ Adv
     /\ \/ /\ e.kind = "meta" /\ e.key = "last-submitted-header-height"
-          /\ e.h = dwmH /\ Same
-       \/ /\ e.kind = "meta" /\ e.key = "last-submitted-data-height" /\ e.h = dwmD /\ Same
-       \/ /\ e.kind = "meta" /\ e.key = "last-submitted-data-height" /\ e.h > dwmD
+          /\ IF pcH \in BookPcs THEN BookH /\ dwmH' = e.h ELSE e.h = dwmH /\ Same        \* the second half of postSubmit
+       \/ /\ e.kind = "meta" /\ e.key = "last-submitted-data-height" /\ pcD \in BookPcs
+          /\ BookD /\ dwmD' = e.h
+       \/ /\ e.kind = "meta" /\ e.key = "last-submitted-data-height" /\ pcD \notin BookPcs /\ e.h = dwmD /\ Same
+       \/ /\ e.kind = "meta" /\ e.key = "last-submitted-data-height" /\ pcD \notin BookPcs /\ e.h > dwmD
           /\ SkipDTo(e.h)
        \/ /\ e.kind = "meta" /\ e.key = "d"
           /\ e.h = incl + 1 /\ Persist
